@@ -16,9 +16,8 @@ Trace == ndJsonDeserialize(IOEnv.TRACE_FILE)
 VARIABLES l, prev
 NoPrev == [case |-> -1]
 
-SerVerdict(r) ==
-    LET e == Ser(r.t, r.v, BitsOfBytes(r.bytes))
-        need == BufBytes(r.t)
+SerVerdict(r, e) ==
+    LET need == BufBytes(r.t)
     IN  IF r.guard # 1 THEN "ser.guard"
         ELSE IF r.buf >= 0 /\ r.buf < need THEN
             (IF r.err = "too_small" \/ (e.err # "none" /\ r.err = e.err) THEN "ok" ELSE "ser.too_small")
@@ -71,14 +70,14 @@ CrossVerdict(r) ==
          ELSE IF prev.bytes2 # r.bytes2 /\ prev.L = r.L THEN "cross.bytes" ELSE "ok")
     ELSE "ok"
 
-Verdict(r) ==
-    LET v == IF r.ev = "ser" THEN SerVerdict(r) ELSE IF r.ev = "des" THEN DesVerdict(r)
+Verdict(r, e) ==
+    LET v == IF r.ev = "ser" THEN SerVerdict(r, e) ELSE IF r.ev = "des" THEN DesVerdict(r)
              ELSE IF r.ev = "rt" THEN RtVerdict(r) ELSE MetaVerdict(r)
     IN IF v # "ok" THEN v ELSE CrossVerdict(r)
 
 (* det flag for ser records is computed by the spec, not taken from the harness *)
-WithDet(r) == IF r.ev = "ser" THEN [ev |-> r.ev, case |-> r.case, err |-> r.err, kinds |-> r.kinds, bytes |-> r.bytes,
-                                    det |-> Ser(r.t, r.v, BitsOfBytes(r.bytes)).det]
+WithDet(r, e) == IF r.ev = "ser" THEN [ev |-> r.ev, case |-> r.case, err |-> r.err, kinds |-> r.kinds, bytes |-> r.bytes,
+                                    det |-> e.det]
               ELSE IF r.ev = "des" THEN [ev |-> r.ev, case |-> r.case, err |-> r.err, kinds |-> r.kinds, L |-> r.L, val |-> r.val,
                                          consumed |-> r.consumed, t |-> r.t]
               ELSE IF r.ev = "rt" THEN [ev |-> r.ev, case |-> r.case, err |-> r.err, err2 |-> r.err2, bytes2 |-> r.bytes2, L |-> r.L, kinds |-> r.kinds]
@@ -87,8 +86,9 @@ WithDet(r) == IF r.ev = "ser" THEN [ev |-> r.ev, case |-> r.case, err |-> r.err,
 TInit == l = 1 /\ prev = NoPrev
 TNext == /\ l <= Len(Trace)
          /\ LET r == Trace[l]
-                w == WithDet(r)
-                v == Verdict(IF r.ev = "ser" THEN [r EXCEPT !.det = w.det] ELSE r)
+                e == IF r.ev = "ser" THEN Ser(r.t, r.v, BitsOfBytes(r.bytes)) ELSE [det |-> FALSE]
+                w == WithDet(r, e)
+                v == Verdict(IF r.ev = "ser" THEN [r EXCEPT !.det = w.det] ELSE r, e)
             IN /\ IF v = "ok" THEN TRUE ELSE PrintT(<<"REJECT", r.id, v>>)
                /\ prev' = IF prev.case = r.case /\ prev.ev = r.ev THEN prev ELSE w
          /\ l' = l + 1
